@@ -57,6 +57,8 @@ def run(mod, argv=None):
         for ax in axioms:
             for line in ax.splitlines():
                 nm = line.split(":")[0].strip()
+                if nm in ("Axioms", "Closed under the global context"):
+                    continue
                 if nm and not line.startswith(" ") and nm not in allowed:
                     broken.append(("axiom", "unexpected axiom %s under %s" % (nm, mod.PROP_FILE)))
 
